@@ -498,14 +498,44 @@ func (self *Fork) reset() {
 
 func (self *Fork) resetPartial() error {
 	self.lastPrint = time.Now()
+	// A failure recorded for the fork itself means that the outputs of the
+	// stage could not be read or were not valid.  The job which produced
+	// them needs to run again, or the fork would stay failed forever.
+	redoOutputs := false
+	if state, _ := self.metadata.getState(); state == Failed {
+		redoOutputs = true
+		if err := self.metadata.remove(Errors); err != nil {
+			return err
+		}
+		if err := self.metadata.remove(Assert); err != nil {
+			return err
+		}
+	}
 	if err := self.split_metadata.checkedReset(); err != nil {
 		return err
 	}
-	if err := self.join_metadata.checkedReset(); err != nil {
+	if state, _ := self.join_metadata.getState(); state == Failed && !self.Split() {
+		// The join of a stage which does not split is only a copy of
+		// the outputs of its single chunk.
+		redoOutputs = true
+	}
+	if redoOutputs {
+		if _, ok := self.join_metadata.getState(); ok {
+			if err := self.join_metadata.uncheckedReset(); err != nil {
+				return err
+			}
+			util.PrintInfo("runtime", "(reset-partial)   %s", self.join_metadata.fqname)
+		}
+	} else if err := self.join_metadata.checkedReset(); err != nil {
 		return err
 	}
 	for _, chunk := range self.chunks {
-		if err := chunk.metadata.checkedReset(); err != nil {
+		if redoOutputs && !self.Split() {
+			if err := chunk.metadata.uncheckedReset(); err != nil {
+				return err
+			}
+			util.PrintInfo("runtime", "(reset-partial)   %s", chunk.metadata.fqname)
+		} else if err := chunk.metadata.checkedReset(); err != nil {
 			return err
 		}
 	}
